@@ -138,7 +138,7 @@ PROPS["C02"] = dict(
 )
 PROPS["C03"] = dict(
     jobs=lambda ctx: pos_jobs(ctx, 500, 20000, 1, 0, 0, 0, families=False) + [dict(sub=["checkfamily", q(ctx, 3000, 16), q(ctx, 16, 1)], shards=16, timeout=3000)],
-    relevant=r"in_check|state|indistinguishable|pinned|checkers|move_new/move_mut/move_into agree|successor = rules make|position-rejected|harness-crash",
+    relevant=r"in_check|state|indistinguishable|pinned|checkers|move_new/move_mut/move_into agree|successor = rules make|successor-is-acceptable|parses back|position-rejected|harness-crash",
     rule=POS_RULE + "; per position in_check() and state() against Rules.in_check / classify, the incrementally maintained pinned/checkers against the "
          "from-scratch ones, and {legal moves, check, hash, text, Debug rendering, ==} of the moved board against to_string().parse(); per legal move "
          "the successor's derived state against from-scratch; check-giving families: en-passant captures with the enemy king on every square and an own slider behind (direct + discovered checks), promotions (incl. knight, capturing) with the enemy king on every square, castling with the enemy king on the rook's arrival file, mates/stalemates delivered at and beyond the 100-half-move boundary",
